@@ -331,6 +331,8 @@ def run_property(prop, tier, seed):
         lemmas = [lm for lm in reg.lemmas.values() if prop in lm.props]
         from pyvc import effects
         frame_obls = effects.obligations(REPO, prop) if prop in effects.PROP_FILTER else []
+        arity_obls = [o for o in effects.arity_obligations(REPO, prop)]
+        frame_obls = frame_obls + arity_obls
         if not contracts and not lemmas and not frame_obls:
             return None
         externals.USED.clear()
@@ -386,6 +388,9 @@ def run_property(prop, tier, seed):
             out["results"].append(o)
             if o["status"] == "discharged":
                 out["discharged"] += 1
+            elif o["status"] == "refuted":
+                out["failures"].append({"clause": o["name"], "site": o["function"], "tier": "T1", "has_input": False,
+                                        "detail": o["reason"] + " :: " + o["note"], "obligation": o["name"]})
             else:
                 out["undecided"].append({"name": o["name"], "reason": o["reason"]})
         for key, why in undecided_fn.items():
